@@ -123,6 +123,19 @@ CHECKS = {
          "subprogram-locals-overlap and not searched further",
          "store-event monitor (shadow ownership map) in the reference VM + "
          "differential final-state oracle", "4 C04"),
+ "C05": ("exploration",
+         "Every program produced by the generators of C01-C04, C06, C07, C09, "
+         "hand-parameterised families (helper calls inside expressions and "
+         "conditions, sub-programs, dynamic and nested packet guards) and "
+         "the library's own programs (EtherXDP dispatcher; FastSyncGroup "
+         "with every bundled device alone and combined over random offline "
+         "terminals, FMMU and direct) is assembled by the real generator and "
+         "submitted to BPF_PROG_LOAD; the kernel verifier is the oracle and "
+         "its log the witness. AssembleError counts as not accepted.",
+         "relative to the verifier of the running kernel (6.18) and to the "
+         "program families generated; there is no substitute oracle",
+         "runtime monitoring with the kernel verifier as sanitizer/oracle",
+         "4 C05"),
 }
 
 NOT_YET = "check not built yet in this round (design in DESIGN.md section 4)"
